@@ -1,2 +1,838 @@
-// stub created by the lead so that the workspace always loads; replace it with the check
-fn main() {}
+//! C14 — journal-backed zones survive a stop at any point.
+//!
+//! E-FAULT. One "life" of a server = a real `SqliteZoneHandler` with a file-backed SQLite journal
+//! (tmpfs), fed signed UPDATE messages through the real `Catalog`. While it runs, a second
+//! read-only SQLite connection is asked at EVERY journal write point (hook point
+//! "journal_insert_record") and at every acknowledgement how many rows are durable (committed and
+//! visible to another connection). Every distinct durable row count k seen at a point where the
+//! process may stop is a crash point: a fresh journal holding exactly the first k rows is
+//! recovered with the real `recover_with_journal` (what `try_from_config` does) and compared with
+//! the crash-free run: recovered zone = a whole-message boundary state (the state before or after
+//! the in-flight message), serial not lower than any serial answered before the stop (SOA
+//! queries after every message and in-flight at every journal write point), recovery Ok, and every
+//! continuation on the recovered handler behaves like on the never-crashed handler in that
+//! state; thorough: second crash inside the continuation.
+
+use std::cell::RefCell;
+use std::collections::HashMap;
+use std::future::Future;
+use std::path::PathBuf;
+use std::rc::Rc;
+use std::sync::Arc;
+use std::task::{Context, Poll, Waker};
+
+use hickory_proto::rr::{RecordType, TSigner};
+use hickory_server::store::sqlite::Journal;
+use hickory_server::zone_handler::AxfrPolicy;
+use serde_json::{json, Value};
+use vcore::{catch, Ctx, Local, Odometer};
+use vref::update as ru;
+use vupd::{a, cname, empty, ns, soa, txt, with_class, Env, Handler, JournalRow, Msg, Rr, Snap};
+
+// ------------------------------------------------------------------------------------------
+// alphabet
+
+#[derive(Clone, Copy)]
+struct MsgT {
+    name: &'static str,
+    build: fn(u32) -> Msg,
+}
+
+fn upd(us: Vec<Rr>) -> Msg {
+    Msg { prereqs: vec![], updates: us }
+}
+
+fn alphabet() -> Vec<MsgT> {
+    vec![
+        MsgT { name: "add b.z A1", build: |_| upd(vec![a("b.z.", 60, 1)]) },
+        MsgT { name: "add b.z A1,A2", build: |_| upd(vec![a("b.z.", 60, 1), a("b.z.", 60, 2)]) },
+        MsgT { name: "add a.z A2; a.z TXT; b.z A1", build: |_| upd(vec![a("a.z.", 60, 2), txt("a.z.", 60, "t"), a("b.z.", 60, 1)]) },
+        MsgT { name: "delete RR a.z A1", build: |_| upd(vec![with_class(a("a.z.", 0, 1), ru::CLASS_NONE)]) },
+        MsgT { name: "replace a.z A: delete RRset, add A2", build: |_| upd(vec![empty("a.z.", ru::T_A, ru::CLASS_ANY, 0), a("a.z.", 60, 2)]) },
+        MsgT { name: "delete name b.z", build: |_| upd(vec![empty("b.z.", ru::T_ANY, ru::CLASS_ANY, 0)]) },
+        MsgT {
+            name: "rejected: prereq b.z in use, add b.z TXT",
+            build: |_| Msg { prereqs: vec![empty("b.z.", ru::T_ANY, ru::CLASS_ANY, 0)], updates: vec![txt("b.z.", 60, "t")] },
+        },
+        MsgT { name: "no-op: delete RRset a.a.z A", build: |_| upd(vec![empty("a.a.z.", ru::T_A, ru::CLASS_ANY, 0)]) },
+        MsgT { name: "replace SOA serial cur+10", build: |cur| upd(vec![soa("z.", 60, cur.wrapping_add(10), 2)]) },
+        MsgT { name: "add b.z CNAME a.z", build: |_| upd(vec![cname("b.z.", 60, "a.z.")]) },
+        MsgT { name: "move b.z A1 -> A2", build: |_| upd(vec![with_class(a("b.z.", 0, 1), ru::CLASS_NONE), a("b.z.", 60, 2)]) },
+        MsgT { name: "add z NS n2", build: |_| upd(vec![ns("z.", 60, "n2.o.")]) },
+    ]
+}
+
+fn start_zones(thorough: bool) -> Vec<(&'static str, Vec<Rr>)> {
+    let z3 = vec![soa("z.", 60, 5, 1), ns("z.", 60, "n1.o."), a("a.z.", 60, 1)];
+    let mut z6 = z3.clone();
+    z6.extend([a("a.z.", 60, 2), a("b.z.", 60, 1), txt("a.a.z.", 60, "t")]);
+    if thorough {
+        vec![("zone3", z3), ("zone6", z6)]
+    } else {
+        vec![("zone3", z3)]
+    }
+}
+
+// ------------------------------------------------------------------------------------------
+// journal store on tmpfs + durable-row observer
+
+struct Store {
+    path: PathBuf,
+    ro: rusqlite::Connection,
+}
+
+impl Store {
+    fn open(dir: &std::path::Path, name: &str) -> Store {
+        let path = dir.join(name);
+        let _ = std::fs::remove_file(&path);
+        drop(Journal::from_file(&path).expect("create journal file"));
+        let ro = rusqlite::Connection::open_with_flags(&path, rusqlite::OpenFlags::SQLITE_OPEN_READ_ONLY).expect("read-only connection");
+        Store { path, ro }
+    }
+    /// A journal on this store's file holding exactly `rows` (a disk image after a stop).
+    fn journal_with(&self, rows: &[JournalRow]) -> Journal {
+        let j = Journal::from_file(&self.path).expect("open journal file");
+        {
+            let c = j.conn();
+            c.execute_batch("BEGIN; DELETE FROM records;").expect("clear");
+            for r in rows {
+                c.execute("INSERT INTO records (client_id, soa_serial, timestamp, record) VALUES (?1,?2,?3,?4)", rusqlite::params![r.0, r.1, r.2, r.3])
+                    .expect("insert row");
+            }
+            c.execute_batch("COMMIT;").expect("commit");
+        }
+        j
+    }
+    /// Rows another connection can see right now = rows that survive a stop right now.
+    fn durable(&self) -> usize {
+        self.ro.query_row("SELECT count(*) FROM records", [], |r| r.get::<_, i64>(0)).expect("count") as usize
+    }
+}
+
+#[derive(Clone, Debug)]
+struct Point {
+    durable: usize,
+    inflight_serial: Option<u32>,
+}
+
+struct ObsState {
+    store: Rc<Store>,
+    env: Option<Arc<Env>>,
+    points: Vec<Point>,
+}
+
+thread_local! {
+    static OBS: RefCell<Option<ObsState>> = const { RefCell::new(None) };
+}
+
+fn poll_once<F: Future>(f: F) -> Option<F::Output> {
+    let mut f = std::pin::pin!(f);
+    let mut cx = Context::from_waker(Waker::noop());
+    match f.as_mut().poll(&mut cx) {
+        Poll::Ready(v) => Some(v),
+        Poll::Pending => None,
+    }
+}
+
+fn soa_serial_of(reply: &vupd::Reply) -> Option<u32> {
+    reply.answers.iter().find(|r| r.rtype == ru::T_SOA).and_then(|r| ru::soa_serial(&r.rdata))
+}
+
+/// A SOA query answered by the real catalog right now (also from inside a journal write point).
+fn answered_serial(env: &Env) -> Option<u32> {
+    let q = vupd::query_bytes(9, vupd::ORIGIN, RecordType::SOA);
+    poll_once(env.exchange(&q)).and_then(|r| r.ok()).and_then(|r| soa_serial_of(&r))
+}
+
+fn on_point(name: &'static str) {
+    if name != "journal_insert_record" {
+        return;
+    }
+    OBS.with(|o| {
+        let (store, env) = {
+            let g = o.borrow();
+            match g.as_ref() {
+                Some(s) => (s.store.clone(), s.env.clone()),
+                None => return,
+            }
+        };
+        let durable = store.durable();
+        let inflight_serial = env.and_then(|e| answered_serial(&e));
+        if let Some(s) = o.borrow_mut().as_mut() {
+            s.points.push(Point { durable, inflight_serial });
+        }
+    });
+}
+
+// ------------------------------------------------------------------------------------------
+// one life
+
+#[derive(Clone, Debug)]
+struct Ack {
+    durable: usize,
+    rcode: Option<u8>,
+    snap: Snap,
+    answered: Option<u32>,
+    /// journal write points seen while this message (or the initial persist) was processed
+    points: Vec<Point>,
+    msg: Option<Msg>,
+}
+
+struct Life {
+    env: Arc<Env>,
+    store: Rc<Store>,
+    /// acks[0] = the start of the life (after persist / after recovery)
+    acks: Vec<Ack>,
+    recovery: Option<Result<(), String>>,
+}
+
+struct Worker {
+    rt: tokio::runtime::Runtime,
+    signer: TSigner,
+    stores: Vec<Rc<Store>>,
+    /// crash-free behaviour cache: (zone id, history digest) -> per-message (rcode, content+serial digest)
+    cache: HashMap<u64, Vec<(Option<u8>, u64)>>,
+}
+
+fn tmp_root() -> PathBuf {
+    let base = if std::path::Path::new("/dev/shm").is_dir() { PathBuf::from("/dev/shm") } else { std::env::temp_dir() };
+    base.join(format!("verif-c14-{}", std::process::id()))
+}
+
+impl Worker {
+    fn new(id: usize) -> Worker {
+        vsim::reset_clocks(vupd::NOW);
+        hickory_proto::verif::set_point_callback(Some(on_point));
+        let dir = tmp_root().join(format!("w{id}"));
+        std::fs::create_dir_all(&dir).expect("tmp dir");
+        let stores = (0..4).map(|i| Rc::new(Store::open(&dir, &format!("life{i}.db")))).collect();
+        Worker { rt: vsim::rt(), signer: vupd::signer1(), stores, cache: HashMap::new() }
+    }
+}
+
+fn cs_digest(s: &Snap) -> u64 {
+    vupd::digest(&(s.content(), s.serial()))
+}
+
+fn same_state(x: &Snap, y: &Snap) -> bool {
+    x.serial() == y.serial() && x.content() == y.content()
+}
+
+impl Life {
+    fn observe<T>(store: &Rc<Store>, env: Option<Arc<Env>>, f: impl FnOnce() -> T) -> (T, Vec<Point>) {
+        OBS.with(|o| *o.borrow_mut() = Some(ObsState { store: store.clone(), env, points: vec![] }));
+        let r = f();
+        let pts = OBS.with(|o| o.borrow_mut().take()).map(|s| s.points).unwrap_or_default();
+        (r, pts)
+    }
+
+    /// First life: the zone is loaded, a new journal is attached and the zone persisted into it.
+    fn fresh(w: &Worker, store: &Rc<Store>, zone: &[Rr]) -> Life {
+        let mut h = Handler::new(vupd::in_memory_zone(zone), AxfrPolicy::AllowAll, true, false);
+        h.set_tsig_signers(vec![w.signer.clone()]);
+        let journal = store.journal_with(&[]);
+        w.rt.block_on(h.set_journal(journal));
+        let (res, points) = Life::observe(store, None, || w.rt.block_on(h.persist_to_journal()));
+        res.expect("persist_to_journal");
+        let env = Arc::new(Env::from_handler(h));
+        let snap = w.rt.block_on(env.snapshot());
+        let answered = answered_serial(&env);
+        Life { env, store: store.clone(), acks: vec![Ack { durable: store.durable(), rcode: None, snap, answered, points, msg: None }], recovery: None }
+    }
+
+    /// A later life: the journal file holds `rows`; the zone is recovered from it.
+    fn recovered(w: &Worker, store: &Rc<Store>, rows: &[JournalRow]) -> Result<Life, String> {
+        let journal = store.journal_with(rows);
+        let mut h = Handler::new(vupd::empty_zone(), AxfrPolicy::AllowAll, true, false);
+        h.set_tsig_signers(vec![w.signer.clone()]);
+        let res = catch(|| w.rt.block_on(h.recover_with_journal(&journal))).map_err(|p| format!("panic:{}", p.msg))?;
+        let recovery = Some(res.map_err(|e| e.to_string()));
+        w.rt.block_on(h.set_journal(journal));
+        let env = Arc::new(Env::from_handler(h));
+        let snap = w.rt.block_on(env.snapshot());
+        let answered = answered_serial(&env);
+        Ok(Life { env, store: store.clone(), acks: vec![Ack { durable: store.durable(), rcode: None, snap, answered, points: vec![], msg: None }], recovery })
+    }
+
+    fn cur_serial(&self) -> u32 {
+        self.acks.last().unwrap().snap.serial().unwrap_or(0)
+    }
+
+    fn apply(&mut self, w: &Worker, t: &MsgT) -> Result<(), String> {
+        let msg = (t.build)(self.cur_serial());
+        let bytes = vupd::signed_update(200 + self.acks.len() as u16, &msg, &w.signer, vupd::NOW);
+        let env = self.env.clone();
+        let (res, points) = Life::observe(&self.store, Some(env.clone()), || catch(|| w.rt.block_on(env.exchange(&bytes))));
+        let rcode = match res {
+            Err(p) => return Err(format!("panic:{}", p.msg)),
+            Ok(Err(e)) => return Err(e),
+            Ok(Ok(r)) => Some(r.rcode),
+        };
+        let snap = w.rt.block_on(self.env.snapshot());
+        let answered = answered_serial(&self.env);
+        self.acks.push(Ack { durable: self.store.durable(), rcode, snap, answered, points, msg: Some(msg) });
+        Ok(())
+    }
+
+    fn rows(&self, w: &Worker) -> Vec<JournalRow> {
+        w.rt.block_on(self.env.journal_rows())
+    }
+
+    /// Every durable row count at which the process may stop, ascending.
+    fn crash_points(&self) -> Vec<usize> {
+        let mut ks: Vec<usize> = vec![0];
+        for a in &self.acks {
+            ks.push(a.durable);
+            ks.extend(a.points.iter().map(|p| p.durable));
+        }
+        ks.sort();
+        ks.dedup();
+        ks
+    }
+}
+
+// ------------------------------------------------------------------------------------------
+// oracle for one crash point
+
+#[derive(Clone, Debug)]
+struct Finding {
+    key: String,
+    what: String,
+}
+
+/// Where a durable row count lies relative to the message boundaries of a life.
+enum Pos {
+    /// before the life's start state was durable (inside the initial dump)
+    InsideInitialDump,
+    /// exactly the durable count at acknowledgement `j`
+    Boundary(usize),
+    /// strictly inside the rows of message `m` (= acks index); `offset` rows of it are durable,
+    /// `update_rows` of its rows are Update RRs (the rest is the post-update SOA row)
+    Inside { m: usize, offset: usize, update_rows: usize },
+}
+
+fn position(life: &Life, k: usize) -> Pos {
+    if k < life.acks[0].durable {
+        return Pos::InsideInitialDump;
+    }
+    let mut j = 0;
+    for (i, a) in life.acks.iter().enumerate() {
+        if a.durable <= k {
+            j = i;
+        }
+    }
+    if life.acks[j].durable == k {
+        return Pos::Boundary(j);
+    }
+    let m = j + 1;
+    let group = life.acks[m].durable - life.acks[j].durable;
+    let changed = !same_state(&life.acks[m].snap, &life.acks[j].snap);
+    let update_rows = if changed { group.saturating_sub(1) } else { group };
+    Pos::Inside { m, offset: k - life.acks[j].durable, update_rows }
+}
+
+/// Serials answered before a stop that leaves `k` rows durable: after every acknowledged message
+/// and in-flight at every journal write point reached with <= k durable rows.
+fn answered_before(life: &Life, k: usize, earlier: &[u32]) -> Vec<(u32, &'static str)> {
+    let mut v: Vec<(u32, &'static str)> = earlier.iter().map(|s| (*s, "earlier-life")).collect();
+    for (i, a) in life.acks.iter().enumerate() {
+        if a.durable <= k {
+            if let Some(s) = a.answered {
+                v.push((s, "after-acknowledgement"));
+            }
+        }
+        for p in &a.points {
+            if p.durable <= k && i > 0 {
+                if let Some(s) = p.inflight_serial {
+                    v.push((s, "in-flight"));
+                }
+            }
+        }
+    }
+    v
+}
+
+/// Judge the zone recovered from the first `k` rows of `life`'s journal. Returns the findings and,
+/// if the recovered zone is a boundary state, the index of that boundary.
+fn judge_recovery(life: &Life, k: usize, rec: &Result<Life, String>, earlier_answers: &[u32], prefix: &str, l: &mut Local) -> (Vec<Finding>, Option<usize>) {
+    let mut out = vec![];
+    let pos = position(life, k);
+    let scene = match &pos {
+        Pos::InsideInitialDump => "k-inside-initial-dump",
+        Pos::Boundary(_) => "k-at-message-boundary",
+        Pos::Inside { offset, update_rows, .. } if offset < update_rows => "k-inside-row-group",
+        Pos::Inside { .. } => "k-before-soa-row",
+    };
+    let rec = match rec {
+        Err(p) => {
+            let slug: String = p.chars().map(|c| if c.is_ascii_alphanumeric() { c.to_ascii_lowercase() } else { '-' }).take(60).collect();
+            out.push(Finding { key: format!("{prefix}recovery-{slug}:{scene}"), what: format!("recovery of the first {k} rows panicked: {p}") });
+            return (out, None);
+        }
+        Ok(r) => r,
+    };
+    let rs = &rec.acks[0].snap;
+    if let Some(Err(e)) = &rec.recovery {
+        if matches!(pos, Pos::InsideInitialDump) {
+            // refusing a journal whose initial dump is incomplete is fine: the zone file is
+            // still authoritative
+            l.outcome("recovery-refused-incomplete-initial-dump");
+            return (out, None);
+        }
+        out.push(Finding { key: format!("{prefix}recovery-failed:{scene}"), what: format!("recover_with_journal failed on the first {k} rows the server itself wrote: {e}") });
+        return (out, None);
+    }
+    let mut boundary = None;
+    match pos {
+        Pos::InsideInitialDump => {
+            if same_state(rs, &life.acks[0].snap) {
+                boundary = Some(0);
+            } else {
+                out.push(Finding {
+                    key: format!("{prefix}partial-initial-dump:{}", if k == 0 { "empty-journal" } else { "k-inside-dump" }),
+                    what: format!(
+                        "a stop inside the initial dump ({k} of {} rows durable) recovers Ok to a partial zone that would be served as complete: {:?}",
+                        life.acks[0].durable,
+                        rs.text()
+                    ),
+                });
+            }
+        }
+        Pos::Boundary(j) => {
+            if same_state(rs, &life.acks[j].snap) {
+                boundary = Some(j);
+            } else {
+                let what_differs = match (rs.content() == life.acks[j].snap.content(), rs.serial() == life.acks[j].snap.serial()) {
+                    (true, false) => "serial",
+                    (false, true) => "content",
+                    _ => "content-and-serial",
+                };
+                out.push(Finding {
+                    key: format!("{prefix}boundary-state-wrong:{what_differs}"),
+                    what: format!(
+                        "stop exactly after message {j} was made durable ({k} rows): recovered {:?} serial {:?}, crash-free state {:?} serial {:?}",
+                        rs.text(),
+                        rs.serial(),
+                        life.acks[j].snap.text(),
+                        life.acks[j].snap.serial()
+                    ),
+                });
+            }
+        }
+        Pos::Inside { m, offset, update_rows } => {
+            let before = &life.acks[m - 1].snap;
+            let after = &life.acks[m].snap;
+            if same_state(rs, before) {
+                boundary = Some(m - 1);
+                l.outcome("in-flight-message-absent");
+            } else if same_state(rs, after) {
+                boundary = Some(m);
+                l.outcome("in-flight-message-complete");
+            } else if rs.content() == after.content() && rs.serial() == before.serial() && after.content() != before.content() {
+                out.push(Finding {
+                    key: format!("{prefix}content-new-serial-old"),
+                    what: format!(
+                        "stop with {offset} of {} rows of a message durable: recovered the message's content {:?} under the OLD serial {:?} (after the message: {:?}) - no whole-message boundary",
+                        life.acks[m].durable - life.acks[m - 1].durable,
+                        rs.text(),
+                        rs.serial(),
+                        after.serial()
+                    ),
+                });
+            } else if offset < update_rows {
+                out.push(Finding {
+                    key: format!("{prefix}half-applied:k-inside-row-group"),
+                    what: format!(
+                        "stop with {offset} of {update_rows} update rows of a message durable: recovered {:?} serial {:?}; before the message {:?}, after it {:?} - the message is half-applied",
+                        rs.text(),
+                        rs.serial(),
+                        before.text(),
+                        after.text()
+                    ),
+                });
+            } else {
+                out.push(Finding {
+                    key: format!("{prefix}in-flight-state-wrong:k-before-soa-row"),
+                    what: format!(
+                        "stop with all update rows but not the SOA row durable: recovered {:?} serial {:?}; before {:?}/{:?}, after {:?}/{:?}",
+                        rs.text(),
+                        rs.serial(),
+                        before.text(),
+                        before.serial(),
+                        after.text(),
+                        after.serial()
+                    ),
+                });
+            }
+        }
+    }
+    // serial never lower than any answered one
+    if let Some(rser) = rs.serial() {
+        let mut worst: Option<(u32, &'static str)> = None;
+        for (s, how) in answered_before(life, k, earlier_answers) {
+            if ru::serial_cmp(rser, s) == ru::SerialOrd::Less && worst.map(|w| ru::serial_cmp(w.0, s) == ru::SerialOrd::Less).unwrap_or(true) {
+                worst = Some((s, how));
+            }
+        }
+        if let Some((s, how)) = worst {
+            out.push(Finding {
+                key: format!("{prefix}serial-below-answered:{how}:{scene}"),
+                what: format!("recovered serial {rser} is lower than serial {s} the server had answered with ({how}) before the stop at {k} durable rows"),
+            });
+        }
+    } else if !matches!(position(life, k), Pos::InsideInitialDump) {
+        out.push(Finding { key: format!("{prefix}recovered-zone-without-soa:{scene}"), what: format!("recovered zone has no SOA: {:?}", rs.text()) });
+    }
+    (out, boundary)
+}
+
+// ------------------------------------------------------------------------------------------
+// one case = (zone, history, k [, continuation [, k2]])
+
+struct Plan<'a> {
+    /// recovered handlers (journal content + boundary state) whose continuations were already
+    /// compared with the never-crashed handler: the recovered object is a function of the rows
+    done: &'a std::sync::Mutex<std::collections::HashSet<u64>>,
+    zones: &'a [(&'static str, Vec<Rr>)],
+    alpha: &'a [MsgT],
+    /// continuation length after histories of <= 2 messages / of more messages
+    cont_len_short: usize,
+    cont_len_long: usize,
+    /// a second crash is enumerated after histories of at most this many messages
+    second_crash_max_hist: Option<usize>,
+}
+
+impl Plan<'_> {
+    fn cont_len(&self, hist_len: usize) -> usize {
+        if hist_len <= 2 {
+            self.cont_len_short
+        } else {
+            self.cont_len_long
+        }
+    }
+    fn second_crash(&self, hist_len: usize) -> bool {
+        self.second_crash_max_hist.map(|m| hist_len <= m).unwrap_or(false)
+    }
+}
+
+fn case_json(plan: &Plan, zone: usize, hist: &[usize], k: Option<usize>, cont: &[usize], k2: Option<usize>) -> Value {
+    json!({
+        "zone": zone,
+        "zone_text": plan.zones[zone].1.iter().map(vupd::rr_text).collect::<Vec<_>>(),
+        "history": hist,
+        "history_text": hist.iter().map(|i| plan.alpha[*i].name).collect::<Vec<_>>(),
+        "k": k,
+        "continuation": cont,
+        "continuation_text": cont.iter().map(|i| plan.alpha[*i].name).collect::<Vec<_>>(),
+        "k2": k2,
+    })
+}
+
+/// Crash-free behaviour of `hist` from `zone`: per message (rcode, state digest).
+fn crash_free(w: &mut Worker, plan: &Plan, zone: usize, hist: &[usize]) -> Vec<(Option<u8>, u64)> {
+    let key = vupd::digest(&(zone, hist));
+    if let Some(v) = w.cache.get(&key) {
+        return v.clone();
+    }
+    let store = w.stores[3].clone();
+    let mut life = Life::fresh(w, &store, &plan.zones[zone].1);
+    for i in hist {
+        if life.apply(w, &plan.alpha[*i]).is_err() {
+            break;
+        }
+    }
+    let v: Vec<(Option<u8>, u64)> = life.acks.iter().skip(1).map(|a| (a.rcode, cs_digest(&a.snap))).collect();
+    if w.cache.len() > 200_000 {
+        w.cache.clear();
+    }
+    w.cache.insert(key, v.clone());
+    v
+}
+
+/// All sequences of length 1..=max over 0..n.
+fn seqs(n: usize, max: usize) -> Vec<Vec<usize>> {
+    let mut out = vec![];
+    let mut last: Vec<Vec<usize>> = vec![vec![]];
+    for _ in 0..max {
+        let mut next = vec![];
+        for s in &last {
+            for i in 0..n {
+                let mut t = s.clone();
+                t.push(i);
+                next.push(t);
+            }
+        }
+        out.extend(next.iter().cloned());
+        last = next;
+    }
+    out
+}
+
+struct Only {
+    k: Option<usize>,
+    cont: Option<Vec<usize>>,
+    k2: Option<usize>,
+}
+
+/// Returns a digest of the crash points and recovered states (for the determinism self-test;
+/// continuations are compared with the crash-free run anyway).
+fn run_history(w: &mut Worker, plan: &Plan, zone: usize, hist: &[usize], only: Option<&Only>, l: &mut Local) -> u64 {
+    let mut dig = vupd::Fnv::new();
+    let store1 = w.stores[0].clone();
+    let mut life = Life::fresh(w, &store1, &plan.zones[zone].1);
+    for i in hist {
+        if let Err(e) = life.apply(w, &plan.alpha[*i]) {
+            l.violation(&format!("crash-free-run-failed:{}", if e.starts_with("panic") { "panic" } else { "no-reply" }), &e, || case_json(plan, zone, hist, None, &[], None));
+            return 1;
+        }
+    }
+    let rows = life.rows(w);
+    if rows.len() != life.acks.last().unwrap().durable {
+        l.violation("journal-rows-not-durable-at-acknowledgement", &format!("{} rows written, {} durable at the last acknowledgement", rows.len(), life.acks.last().unwrap().durable), || {
+            case_json(plan, zone, hist, None, &[], None)
+        });
+        return 2;
+    }
+    if life.acks.iter().skip(1).any(|a| a.points.iter().any(|p| p.inflight_serial.is_none())) {
+        l.outcome("machinery:in-flight-soa-query-did-not-complete");
+    }
+    let conts = seqs(plan.alpha.len(), plan.cont_len(hist.len()));
+    for k in life.crash_points() {
+        if only.map(|o| o.k.is_some() && o.k != Some(k)).unwrap_or(false) {
+            continue;
+        }
+        l.eval();
+        let store2 = w.stores[1].clone();
+        let rec = Life::recovered(w, &store2, &rows[..k]);
+        let (findings, boundary) = judge_recovery(&life, k, &rec, &[], "", l);
+        dig.write(&(k as u64).to_be_bytes());
+        dig.write(&rec.as_ref().map(|r| cs_digest(&r.acks[0].snap)).unwrap_or(7).to_be_bytes());
+        for f in &findings {
+            dig.write(f.key.as_bytes());
+        }
+        match position(&life, k) {
+            Pos::InsideInitialDump => l.outcome("stop:inside-initial-dump"),
+            Pos::Boundary(_) => l.outcome("stop:at-message-boundary"),
+            Pos::Inside { .. } => l.outcome("stop:inside-message-row-group"),
+        }
+        let acked_changes = life.acks.iter().enumerate().skip(1).filter(|(i, a)| a.durable <= k && !same_state(&a.snap, &life.acks[i - 1].snap)).count();
+        if matches!(position(&life, k), Pos::Inside { .. }) || acked_changes > 0 {
+            l.nontrivial(vupd::digest(&(zone, hist, k)));
+        }
+        for f in &findings {
+            l.violation(&f.key, &f.what, || case_json(plan, zone, hist, Some(k), &[], None));
+        }
+        drop(rec);
+        let Some(j) = boundary else { continue };
+        if !findings.is_empty() {
+            continue;
+        }
+        // continuation on the recovered handler vs. the never-crashed handler in state S_j
+        if only.is_none() {
+            let ctx_digest = vupd::digest(&(zone, rows[..k].iter().map(|r| (&r.1, &r.3)).collect::<Vec<_>>(), cs_digest(&life.acks[j].snap)));
+            if !plan.done.lock().unwrap().insert(ctx_digest) {
+                l.outcome("continuations-already-checked-for-this-recovered-journal");
+                continue;
+            }
+        }
+        l.outcome("continuations-checked-for-a-recovered-journal");
+        let answers_life1: Vec<u32> = answered_before(&life, k, &[]).into_iter().map(|x| x.0).collect();
+        for cont in &conts {
+            if only.map(|o| o.cont.as_ref().map(|c| c != cont).unwrap_or(false)).unwrap_or(false) {
+                continue;
+            }
+            let mut full: Vec<usize> = hist[..j].to_vec();
+            full.extend(cont.iter().cloned());
+            let want = crash_free(w, plan, zone, &full);
+            let want = &want[j.min(want.len())..];
+            let mut life2 = match Life::recovered(w, &store2, &rows[..k]) {
+                Ok(x) => x,
+                Err(_) => continue,
+            };
+            let mut diverged = false;
+            for (ci, c) in cont.iter().enumerate() {
+                l.eval();
+                match life2.apply(w, &plan.alpha[*c]) {
+                    Err(e) => {
+                        l.violation(&format!("continuation-failed:{}", if e.starts_with("panic") { "panic" } else { "no-reply" }), &e, || case_json(plan, zone, hist, Some(k), cont, None));
+                        diverged = true;
+                        break;
+                    }
+                    Ok(()) => {
+                        let a = life2.acks.last().unwrap();
+                        let got = (a.rcode, cs_digest(&a.snap));
+                        match want.get(ci) {
+                            Some(wv) if *wv == got => l.outcome("continuation-step-agrees"),
+                            Some(wv) => {
+                                let what = if wv.0 != got.0 { "rcode" } else { "state" };
+                                l.violation(
+                                    &format!("continuation-diverges:{what}"),
+                                    &format!(
+                                        "after recovery at {k} durable rows (boundary {j}) continuation message '{}' gives rcode {:?} / state {:?} serial {:?}; the never-crashed handler gives rcode {:?} and another {what}",
+                                        plan.alpha[*c].name,
+                                        got.0.map(ru::rcode_name),
+                                        a.snap.text(),
+                                        a.snap.serial(),
+                                        wv.0.map(ru::rcode_name)
+                                    ),
+                                    || case_json(plan, zone, hist, Some(k), cont, None),
+                                );
+                                diverged = true;
+                                break;
+                            }
+                            None => {
+                                l.outcome("machinery:crash-free-run-shorter-than-continuation");
+                                diverged = true;
+                                break;
+                            }
+                        }
+                    }
+                }
+            }
+            if diverged || !plan.second_crash(hist.len()) {
+                continue;
+            }
+            // second crash: every stop inside the continuation, recovered again
+            let rows2 = life2.rows(w);
+            for k2 in life2.crash_points() {
+                if k2 <= k {
+                    continue;
+                }
+                if only.map(|o| o.k2.is_some() && o.k2 != Some(k2)).unwrap_or(false) {
+                    continue;
+                }
+                l.eval();
+                let store3 = w.stores[2].clone();
+                let rec2 = Life::recovered(w, &store3, &rows2[..k2]);
+                let (f2, _) = judge_recovery(&life2, k2, &rec2, &answers_life1, "second-crash:", l);
+                l.outcome("second-crash-recovery");
+                l.nontrivial(vupd::digest(&(zone, hist, k, cont, k2)));
+                for f in &f2 {
+                    l.violation(&f.key, &f.what, || case_json(plan, zone, hist, Some(k), cont, Some(k2)));
+                }
+            }
+        }
+    }
+    dig.0
+}
+
+fn main() {
+    let ctx = Ctx::from_args("C14", "fault_enumeration");
+    let thorough = !ctx.quick();
+    let zones = start_zones(true);
+    let alpha = alphabet();
+    let done = std::sync::Mutex::new(std::collections::HashSet::new());
+    let plan = Plan {
+        done: &done,
+        zones: &zones,
+        alpha: &alpha,
+        cont_len_short: if thorough { 2 } else { 1 },
+        cont_len_long: 1,
+        second_crash_max_hist: Some(if thorough { 3 } else { 2 }),
+    };
+    let _ = std::fs::remove_dir_all(tmp_root());
+
+    if let Some((_key, case)) = ctx.replay_case() {
+        let mut w = Worker::new(0);
+        let idx = |k: &str| -> Vec<usize> { case[k].as_array().map(|a| a.iter().map(|x| x.as_u64().unwrap() as usize).collect()).unwrap_or_default() };
+        let hist = idx("history");
+        let cont = idx("continuation");
+        let only = Only {
+            k: case["k"].as_u64().map(|x| x as usize),
+            cont: if cont.is_empty() { None } else { Some(cont.clone()) },
+            k2: case["k2"].as_u64().map(|x| x as usize),
+        };
+        let rp = Plan {
+            done: &done,
+            zones: &zones,
+            alpha: &alpha,
+            cont_len_short: cont.len(),
+            cont_len_long: cont.len(),
+            second_crash_max_hist: if only.k2.is_some() { Some(usize::MAX) } else { None },
+        };
+        ctx.with_local(|l| {
+            run_history(&mut w, &rp, case["zone"].as_u64().unwrap_or(0) as usize, &hist, Some(&only), l);
+        });
+        drop(w);
+        let _ = std::fs::remove_dir_all(tmp_root());
+        ctx.finish(false);
+    }
+
+    let hist_len = if thorough { 4 } else { 3 };
+    let nz = if thorough { 2 } else { 1 };
+    let mut hists: Vec<Vec<usize>> = vec![vec![]];
+    hists.extend(seqs(alpha.len(), hist_len));
+    // thorough: the longest histories only from the small zone (cost), all others from both
+    let od = Odometer::new(&[hists.len() as u64, nz as u64]);
+    ctx.set("histories", json!(hists.len()));
+    ctx.set("start_zones", json!(nz));
+    ctx.set("alphabet", json!(alpha.iter().map(|m| m.name).collect::<Vec<_>>()));
+    ctx.set("continuation_length_after_histories_up_to_2_messages", json!(plan.cont_len_short));
+    ctx.set("continuation_length_after_longer_histories", json!(plan.cont_len_long));
+    ctx.set("second_crash_after_histories_up_to", json!(plan.second_crash_max_hist));
+    ctx.set_rule(
+        "every history of <= L signed UPDATE messages over a 12-message alphabet (1-3 update RRs, a rejected update, a no-op, a SOA replacement; \
+         L = 3 quick / 4 thorough) from a freshly persisted zone (3 RRs; thorough also 6 RRs, histories <= 3) on the real Catalog -> \
+         SqliteZoneHandler with a file-backed journal; for each history EVERY durable row count observed by a second connection at every \
+         journal write point and acknowledgement (with per-row autocommit: every prefix 0..R, including every stop inside the initial dump) is \
+         cut into a fresh journal and recovered with recover_with_journal; then, once per distinct recovered journal, every continuation of <= C \
+         messages (C = 1; thorough C = 2 after histories of <= 2 messages) on the recovered handler is compared with the never-crashed handler, \
+         and (after histories of <= 2 quick / <= 3 thorough messages) every stop inside the continuation is recovered again (second crash). \
+         Oracle: recovery Ok; recovered zone = state before or after the in-flight message of the crash-free run (content + serial); recovered \
+         serial not below any serial answered before the stop (SOA query after every message and in-flight at every journal write point); \
+         continuation: same rcode and same state as never crashed. Non-trivial = distinct (history, k) with k inside a message's row group or \
+         after >= 1 acknowledged content-changing update (and every second-crash case).",
+    );
+    ctx.assume("SQLite's atomic commit: a stop leaves exactly the rows a second connection can see at that moment (a prefix of the row sequence)");
+    ctx.assume("the crash-free run of the same implementation is the reference for boundary states and continuations (C12 judges them against RFC 2136)");
+    ctx.assume("queries do not change state, so one SOA query after every message (and in-flight at every journal write point) dominates every interleaving of queries");
+
+    let total = od.space();
+    ctx.par_run_init(
+        total,
+        1,
+        |wid| Worker::new(wid),
+        |i, l, w| {
+            let d = od.get(i);
+            let hist = &hists[d[0] as usize];
+            let zone = d[1] as usize;
+            if zone == 1 && hist.len() > 3 {
+                l.outcome("skipped:longest-histories-only-from-the-small-zone");
+                return;
+            }
+            let d1 = run_history(w, &plan, zone, hist, None, l);
+            // determinism self-test on a fixed slice: the same case again must look the same
+            if i % 8 == 0 && (hist.len() <= 2 || i % 64 == 0) {
+                let mut scratch = Local::default();
+                let d2 = run_history(w, &plan, zone, hist, None, &mut scratch);
+                l.outcome("selftest-rerun");
+                if d1 != d2 {
+                    l.outcome("machinery:selftest-mismatch");
+                }
+            }
+            if i % 997 == 0 {
+                l.sample(case_json(&plan, zone, hist, None, &[], None));
+            }
+        },
+    );
+    let _ = std::fs::remove_dir_all(tmp_root());
+
+    for class in ["stop:inside-initial-dump", "stop:at-message-boundary", "stop:inside-message-row-group", "continuation-step-agrees"] {
+        if ctx.outcome_count(class) == 0 {
+            ctx.machinery_failure(&format!("vacuous run: outcome class {class} never exercised"));
+        }
+    }
+    if ctx.outcome_count("second-crash-recovery") == 0 {
+        ctx.machinery_failure("vacuous run: no second crash was exercised");
+    }
+    if ctx.outcome_count("machinery:in-flight-soa-query-did-not-complete") > 0 {
+        ctx.machinery_failure("an in-flight SOA query at a journal write point did not complete in one poll");
+    }
+    if ctx.outcome_count("machinery:selftest-mismatch") > 0 || ctx.outcome_count("selftest-rerun") == 0 {
+        ctx.machinery_failure("determinism self-test failed or did not run");
+    }
+    if ctx.outcome_count("machinery:crash-free-run-shorter-than-continuation") > 0 {
+        ctx.machinery_failure("crash-free reference run ended early");
+    }
+    ctx.finish(true);
+}
